@@ -32,7 +32,7 @@
    The jobs word is [Idle] (the marker: address of the strand), or [L l]: pointer to the head of the LIFO inbox [l]
    ([L []] is the null pointer: scheduled, inbox empty).  A pointer value read by a thread is a [ptr]: the marker,
    null, or the identity of the head job (jobs are identified by (submitter, sequence number); a job object is
-   submitted once — the intrusive [next] field admits nothing else).
+   submitted once — the intrusive [next] field allows nothing else).
 
    [step] returns [None] where the real code would dereference the marker or null (Call/Drop on an empty or idle
    word) and where an event does not fit the code; the proofs show that no reachable state offers such an event to
